@@ -139,21 +139,21 @@ class BooleanConstant(_Constant):
 
 
 _HASH_REGEX = {
-    "MD5": (r"^[a-fA-F0-9]{32}$", "MD5"),
-    "MD6": (r"^[a-fA-F0-9]{32}|[a-fA-F0-9]{40}|[a-fA-F0-9]{56}|[a-fA-F0-9]{64}|[a-fA-F0-9]{96}|[a-fA-F0-9]{128}$", "MD6"),
-    "RIPEMD160": (r"^[a-fA-F0-9]{40}$", "RIPEMD-160"),
-    "SHA1": (r"^[a-fA-F0-9]{40}$", "SHA-1"),
-    "SHA224": (r"^[a-fA-F0-9]{56}$", "SHA-224"),
-    "SHA256": (r"^[a-fA-F0-9]{64}$", "SHA-256"),
-    "SHA384": (r"^[a-fA-F0-9]{96}$", "SHA-384"),
-    "SHA512": (r"^[a-fA-F0-9]{128}$", "SHA-512"),
-    "SHA3224": (r"^[a-fA-F0-9]{56}$", "SHA3-224"),
-    "SHA3256": (r"^[a-fA-F0-9]{64}$", "SHA3-256"),
-    "SHA3384": (r"^[a-fA-F0-9]{96}$", "SHA3-384"),
-    "SHA3512": (r"^[a-fA-F0-9]{128}$", "SHA3-512"),
-    "SSDEEP": (r"^[a-zA-Z0-9/+:.]{1,128}$", "SSDEEP"),
-    "WHIRLPOOL": (r"^[a-fA-F0-9]{128}$", "WHIRLPOOL"),
-    "TLSH": (r"^[a-fA-F0-9]{70}$", "TLSH"),
+    "MD5": (r"^[a-fA-F0-9]{32}\Z", "MD5"),
+    "MD6": (r"^(?:[a-fA-F0-9]{32}|[a-fA-F0-9]{40}|[a-fA-F0-9]{56}|[a-fA-F0-9]{64}|[a-fA-F0-9]{96}|[a-fA-F0-9]{128})\Z", "MD6"),
+    "RIPEMD160": (r"^[a-fA-F0-9]{40}\Z", "RIPEMD-160"),
+    "SHA1": (r"^[a-fA-F0-9]{40}\Z", "SHA-1"),
+    "SHA224": (r"^[a-fA-F0-9]{56}\Z", "SHA-224"),
+    "SHA256": (r"^[a-fA-F0-9]{64}\Z", "SHA-256"),
+    "SHA384": (r"^[a-fA-F0-9]{96}\Z", "SHA-384"),
+    "SHA512": (r"^[a-fA-F0-9]{128}\Z", "SHA-512"),
+    "SHA3224": (r"^[a-fA-F0-9]{56}\Z", "SHA3-224"),
+    "SHA3256": (r"^[a-fA-F0-9]{64}\Z", "SHA3-256"),
+    "SHA3384": (r"^[a-fA-F0-9]{96}\Z", "SHA3-384"),
+    "SHA3512": (r"^[a-fA-F0-9]{128}\Z", "SHA3-512"),
+    "SSDEEP": (r"^[a-zA-Z0-9/+:.]{1,128}\Z", "SSDEEP"),
+    "WHIRLPOOL": (r"^[a-fA-F0-9]{128}\Z", "WHIRLPOOL"),
+    "TLSH": (r"^[a-fA-F0-9]{70}\Z", "TLSH"),
 }
 
 
@@ -187,7 +187,7 @@ class BinaryConstant(_Constant):
     def __init__(self, value, from_parse_tree=False):
         # support with or without a 'b'
         if from_parse_tree:
-            m = re.match("^b'(.+)'$", value)
+            m = re.match(r"^b'(.+)'\Z", value)
             if m:
                 value = m.group(1)
         try:
@@ -208,10 +208,10 @@ class HexConstant(_Constant):
     """
     def __init__(self, value, from_parse_tree=False):
         # support with or without an 'h'
-        if not from_parse_tree and re.match('^([a-fA-F0-9]{2})+$', value):
+        if not from_parse_tree and re.match(r'^([a-fA-F0-9]{2})+\Z', value):
             self.value = value
         else:
-            m = re.match("^h'(([a-fA-F0-9]{2})*)'$", value)
+            m = re.match(r"^h'(([a-fA-F0-9]{2})*)'\Z", value)
             if m:
                 self.value = m.group(1)
             else:
